@@ -116,7 +116,11 @@ func Verif_C05_HTTP() {
 		}
 		return nil
 	}
-	ch, _, _ := verifHTTP(hooks)
+	ch, _, st := verifHTTP(hooks)
+	// the server lets the response go out while the request body is open and
+	// buffers it until Flush (HTTP/2 or full-duplex HTTP/1.1), or every write
+	// reaches the client at once
+	st.buffered = zv.Bool("response-buffered-until-flush")
 	ctx, cancel := context.WithCancel(context.Background())
 	defer cancel()
 	cs, err := ch.NewStream(ctx, zzfix.StreamDescOf("S"), "/a/S")
@@ -181,5 +185,91 @@ func Verif_C05_HTTP() {
 	zv.Assert(e2 != nil, "receive-after-end-fails")
 	atomic.StoreInt32(&clientFinished, 1)
 	zv.Reach("all-operations-completed")
+	zv.CheckLeaks()
+}
+
+// Verif_C05_HTTPFlood: the handler returns (after reading 0..1 messages, with or
+// without header and trailer metadata, ok or with an error) while the client is
+// still sending and has not started to receive. Every send must return nil or
+// io.EOF, CloseSend must succeed, and the receives then yield the handler's
+// outcome: nothing may wait for the other side for ever.
+func Verif_C05_HTTPFlood() {
+	sends := 1 + zv.Choose("client-sends", zv.Param("floodsends", 3))
+	reads := zv.Choose("handler-reads", 2)
+	setsHeader := zv.Bool("handler-sets-header")
+	setsTrailer := zv.Bool("handler-sets-trailer")
+	handlerFails := zv.Bool("handler-fails")
+	mtd := []string{"S", "C"}[zv.Choose("method", 2)]
+	hooks := &verifHooks{}
+	var handlerDone int32
+	hooks.Stream = func(tag string, ss grpc.ServerStream) error {
+		for i := 0; i < reads; i++ {
+			ss.RecvMsg(&verifMsg{})
+		}
+		if setsHeader {
+			ss.SetHeader(metadata.Pairs("h", "1"))
+		}
+		if setsTrailer {
+			ss.SetTrailer(metadata.Pairs("t", "1"))
+		}
+		var ret error
+		if handlerFails {
+			ret = status.Error(codes.Aborted, "handler failed")
+		} else if mtd == "C" {
+			// the single response of a client-streaming method (a handler that
+			// answers while the client still sends and does not receive waits for
+			// the client: that is the application's doing, so it counts as not
+			// yet returned)
+			ret = ss.SendMsg(&verifMsg{Count: 9})
+		}
+		atomic.StoreInt32(&handlerDone, 1)
+		return ret
+	}
+	ch, _, st := verifHTTP(hooks)
+	// the response direction has a connection's buffering: the server's writes sit
+	// in its write buffer until Flush (or the handler's return) and then in the
+	// socket; the server does not wait for the client to read them. (The harness's
+	// plain pipe would make a handler that answers before the client reads wait
+	// for the client, which a connection does not.)
+	st.buffered = true
+	ctx, cancel := context.WithCancel(context.Background())
+	defer cancel()
+	cs, err := ch.NewStream(ctx, zzfix.StreamDescOf(mtd), "/a/"+mtd)
+	if err != nil {
+		zv.Fail("stream-created")
+		return
+	}
+	var clientFinished int32
+	zv.GoEnv("watchdog", func() {
+		zv.Quiesce()
+		if atomic.LoadInt32(&handlerDone) != 0 && atomic.LoadInt32(&clientFinished) == 0 {
+			zv.Fail("client-operation-blocked-after-the-handler-returned")
+		}
+		cancel()
+	})
+	for i := 0; i < sends; i++ {
+		e := cs.SendMsg(&verifMsg{Count: int32(i)})
+		if zv.Cancelled(ctx) {
+			return // the watchdog ended an application-level wait
+		}
+		zv.Assert(e == nil || e == io.EOF, "send-returns-nil-or-EOF")
+	}
+	zv.Assert(cs.CloseSend() == nil, "close-send-succeeds")
+	var final error
+	for i := 0; i < 3; i++ {
+		if final = cs.RecvMsg(&verifMsg{}); final != nil {
+			break
+		}
+	}
+	if zv.Cancelled(ctx) {
+		return
+	}
+	zv.Reach("outcome-received")
+	if handlerFails {
+		zv.Assert(status.Code(final) == codes.Aborted, "receive-yields-the-handlers-status")
+	} else {
+		zv.Assert(final == io.EOF, "receive-yields-the-clean-end")
+	}
+	atomic.StoreInt32(&clientFinished, 1)
 	zv.CheckLeaks()
 }
